@@ -55,7 +55,9 @@ def run_core(cases, shards=8, fuel=None, timeout_ms=10000, spec=False, spec_fuel
         lines.append("(m%d run %s %s%s)" % (i, g["ast"], texts, extra))
         if "bc" in g:
             lines.append("(b%d runbc %s %s%s)" % (i, model.canon_loop_ids(g["bc"]), texts, extra))
-            if spec and "named" not in c["src"]:
+            # the specification enumerates ALL outcomes: with many loops in a row (large unrolled counts over nullable bodies) that list is exponential; such
+            # programs are compared at the bytecode / VM / end-to-end layers only
+            if spec and "named" not in c["src"] and g["bc"].count("(startloop") <= 14:
                 lines.append("(s%d spec %s %s %d)" % (i, g["ast"], texts, spec_fuel))
     mres = model.run_model(lines, shards=shards)
     dis = []
